@@ -23,7 +23,6 @@ import (
 	"google.golang.org/grpc/metadata"
 	"google.golang.org/grpc/status"
 	"google.golang.org/protobuf/encoding/protojson"
-	"google.golang.org/protobuf/encoding/protowire"
 	"google.golang.org/protobuf/proto"
 
 	"verif/internal/vschema"
@@ -122,6 +121,7 @@ type realResult struct {
 	clientSaw bool   // the client saw the complete response
 	incon     string // non-empty: could not observe
 	vs        []viol
+	final     bool // vs is the verdict; the harness aborted the stream itself
 }
 
 func larkingRecvInDump() (string, bool) {
@@ -161,6 +161,9 @@ func (g *gen) execReal(c *Case) (vs []viol, outcome string) {
 	if res.incon != "" {
 		e.r.Inconclusive(fmt.Sprintf("%s %s: %s", c.Lane, c.prefix(), res.incon))
 		return res.vs, "inconclusive"
+	}
+	if res.final {
+		return res.vs, "withheld"
 	}
 	// the handler's terminal event
 	if !res.clientSaw {
@@ -519,7 +522,8 @@ func (g *gen) withheld(c *Case, rc *rec, i int, what string) realResult {
 	dump, inRecv := larkingRecvInDump()
 	if rc.sentN() > i && inRecv {
 		_ = dump
-		return realResult{vs: []viol{{c.prefix() + ":withheld:lockstep", fmt.Sprintf("%s %d was sent by the handler (SendMsg returned) but did not reach the client within %v while the handler waits in RecvMsg for the next request message", what, i, stepTimeout)}}, clientSaw: false}
+		g.withheldSeen[c.Lane+" "+c.prefix()] = true
+		return realResult{final: true, vs: []viol{{c.prefix() + ":withheld:lockstep", fmt.Sprintf("%s %d was sent by the handler (SendMsg returned) but did not reach the client within %v while the handler waits in RecvMsg for the next request message", what, i, stepTimeout)}}, clientSaw: false}
 	}
 	return realResult{incon: fmt.Sprintf("lock-step %s %d timed out (handler had sent %d)", what, i, rc.sentN())}
 }
@@ -562,8 +566,20 @@ func (g *gen) doGRPC(c *Case, srv *wire.Server, cl *clients, id string, rc *rec)
 			break
 		}
 		if c.Step && c.Echo && c.serverStreams() && (c.StopAfter == 0 || i < c.StopAfter) {
-			if err := recvOne(); err != nil {
-				termErr = err
+			ch := make(chan error, 1)
+			go func() { ch <- recvOne() }()
+			select {
+			case err := <-ch:
+				if err != nil {
+					termErr = err
+				}
+			case <-time.After(stepTimeout):
+				res := g.withheld(c, rc, i, "reply")
+				cancel()
+				<-ch
+				return res
+			}
+			if termErr != nil {
 				break
 			}
 			g.r.Count("lockstep_rounds", 1)
@@ -749,7 +765,15 @@ func (g *gen) doWS(c *Case, srv *wire.Server, id string, rc *rec) realResult {
 		}
 	}
 	clientClose := func() error {
-		f := ws.MaskFrameInPlaceWith(ws.NewCloseFrame(ws.NewCloseFrameBody(ws.StatusNormalClosure, "")), [4]byte{1, 2, 3, 4})
+		// 1000, 1001 and a close frame without a code all end the stream
+		var body []byte
+		switch len(c.Msgs) % 3 {
+		case 0:
+			body = ws.NewCloseFrameBody(ws.StatusNormalClosure, "")
+		case 1:
+			body = ws.NewCloseFrameBody(ws.StatusGoingAway, "bye")
+		}
+		f := ws.MaskFrameInPlaceWith(ws.NewCloseFrame(body), [4]byte{1, 2, 3, 4})
 		return ws.WriteFrame(conn, f)
 	}
 
@@ -798,12 +822,18 @@ func (g *gen) doWS(c *Case, srv *wire.Server, id string, rc *rec) realResult {
 			if c.StopAfter > 0 && i >= c.StopAfter {
 				continue
 			}
+			conn.SetReadDeadline(time.Now().Add(stepTimeout))
 			if err := readOne(); err != nil {
 				if err == io.EOF {
 					break
 				}
+				var ne net.Error
+				if errors.As(err, &ne) && ne.Timeout() {
+					return g.withheld(c, rc, i, "reply")
+				}
 				return realResult{incon: fmt.Sprintf("websocket read of reply %d: %v", i, err)}
 			}
+			conn.SetReadDeadline(time.Now().Add(opTimeout))
 			g.r.Count("lockstep_rounds", 1)
 		}
 	default:
@@ -846,5 +876,3 @@ func (g *gen) doWS(c *Case, srv *wire.Server, id string, rc *rec) realResult {
 	g.r.Count("ws_close_frames_seen", boolInt(gotClose))
 	return realResult{co: co, clientSaw: serverEnds && gotClose || c.Shape == "bidi"}
 }
-
-var _ = protowire.AppendVarint
